@@ -5,6 +5,8 @@ from __future__ import annotations
 
 import ast
 
+import sympy as sp
+
 from engine import core, frames
 from engine.core import AnalysisError
 from engine.frames import A, C, D, L, U
@@ -246,6 +248,47 @@ def _r04c(rep):
     rep.instance("R04c", CELLS, "Supercell._get_simple_supercell", "determinant of the inverse transformation is required to be 1", ok2, "the unimodularity assertion on the SNF transformation vanished", line=fn.lineno)
 
 
+
+def _r04g(rep):
+    """Old-style supercell construction: the trimming frame re-expresses the supercell matrix in the surrounding frame."""
+    from engine import symnp
+
+    rep.rule("R04g", "old-style supercell: the cell handed to the trimming step spans diag(frame)^T L and the relative axes T satisfy diag(frame) . T = supercell matrix (row i of the matrix divided by frame[i]), so that the trimmed lattice T^T diag(frame) L is S^T L; evaluated symbolically on 3x3 entries with numpy's broadcasting", 2)
+    fn = core.find_def(CELLS, "Supercell._create_supercell")
+    # roles: the matrix (bound to self._supercell_matrix), the frame (second argument of _get_simple_supercell), the
+    # relative axes (first argument of _trim_cell)
+    mat = [st.targets[0].id for st in fn.body if isinstance(st, ast.Assign) and isinstance(st.targets[0], ast.Name) and core.src(st.value) == "self._supercell_matrix"]
+    trims = [c for c in ast.walk(fn) if isinstance(c, ast.Call) and core.src(c.func).endswith("_trim_cell") and c.args and isinstance(c.args[0], ast.Name)]
+    simple = [c for c in ast.walk(fn) if isinstance(c, ast.Call) and core.src(c.func).endswith("_get_simple_supercell") and len(c.args) >= 2 and isinstance(c.args[1], ast.Name)]
+    arms = [st for st in fn.body if isinstance(st, ast.If) and "_is_old_style" in core.src(st.test)]
+    if len(mat) != 1 or len(trims) != 1 or len(simple) != 1 or len(arms) != 1:
+        raise AnalysisError("R04g: Supercell._create_supercell lost its matrix / frame / trimming roles")
+    mat, trim, frame = mat[0], trims[0].args[0].id, simple[0].args[1].id
+    old_arm = arms[0].body if core.src(arms[0].test).replace(" ", "") == "self._is_old_style" else arms[0].orelse
+    M, F = symnp.matrix("m", 3, 3), symnp.vector("f", 3)
+    env = {mat: M}
+
+    def hook(call, ev):
+        if core.src(call.func).endswith("_get_surrounding_frame"):
+            return F
+        return None
+
+    evl = symnp.Evaluator(env, where=f"{CELLS}::Supercell._create_supercell", call_hook=hook)
+    for st in old_arm:
+        if isinstance(st, ast.Assign) and len(st.targets) == 1 and isinstance(st.targets[0], ast.Name):
+            if isinstance(st.value, ast.Constant) and st.value.value is None:
+                continue
+            evl.env[st.targets[0].id] = evl.ev(st.value)
+    if trim not in evl.env or frame not in evl.env:
+        raise AnalysisError(f"R04g: the old-style arm no longer binds '{trim}' and '{frame}'")
+    T, Fv = evl.env[trim], evl.env[frame]
+    rep.instance("R04g", CELLS, "Supercell._create_supercell", f"{frame} = surrounding frame of {mat}", Fv is F, "the frame handed to the simple supercell is not the surrounding frame of the supercell matrix", line=arms[0].lineno)
+    ok = symnp.shape(T) == (3, 3) and all(sp.simplify(T[i][j] * F[i] - M[i][j]) == 0 for i in range(3) for j in range(3))
+    bad = [(i, j, str(T[i][j])) for i in range(3) for j in range(3) if symnp.shape(T) == (3, 3) and sp.simplify(T[i][j] * F[i] - M[i][j]) != 0]
+    rep.instance("R04g", CELLS, "Supercell._create_supercell", f"{trim}[i][j] = {mat}[i][j] / {frame}[i] for all 9 entries", ok,
+                 f"entry {bad[0][:2] if bad else ''} of the relative axes is {bad[0][2] if bad else '?'}: the rows of the supercell matrix are not divided by the frame length of the same row, so the trimmed lattice is D S D^-1 applied to L instead of S^T L — same determinant (the atom-count checks pass), different lattice, for any non-diagonal matrix whose rows have different frame lengths", line=arms[0].lineno)
+
+
 _run_main = run
 
 
@@ -254,6 +297,7 @@ def run(rep: core.Report):
 
     _run_main(rep)
     shared_trunc.run(rep, "R04f")
+    _r04g(rep)
 
 
 def selftest():
@@ -278,6 +322,8 @@ def selftest():
     b("shortest vectors converted with inv(primitive matrix) untransposed", CELLS, "        trans_mat_float = np.dot(supercell_bases, np.linalg.inv(primitive_bases))", "        trans_mat_float = np.linalg.inv(self._primitive_matrix)", "R04a", "_get_smallest_vectors")
     n("shortest vectors converted with inv(primitive matrix) transposed", CELLS, "        trans_mat_float = np.dot(supercell_bases, np.linalg.inv(primitive_bases))", "        trans_mat_float = np.linalg.inv(self._primitive_matrix).T")
     n("dot written as matmul", CELLS, "            cart_diffs = np.dot(frac_diffs, self.cell)", "            cart_diffs = frac_diffs @ self.cell")
+    b("trimming frame divided column-wise by broadcasting", CELLS, "            trim_frame = np.array(\n                [\n                    mat[0] / float(multi[0]),\n                    mat[1] / float(multi[1]),\n                    mat[2] / float(multi[2]),\n                ]\n            )", "            trim_frame = mat / np.array(multi, dtype=\"double\")", "R04g", "trim_frame")
+    n("trimming frame divided row-wise by broadcasting", CELLS, "            trim_frame = np.array(\n                [\n                    mat[0] / float(multi[0]),\n                    mat[1] / float(multi[1]),\n                    mat[2] / float(multi[2]),\n                ]\n            )", "            trim_frame = mat / np.array(multi, dtype=\"double\")[:, None]")
     from rules import shared_trunc
 
     shared_trunc.variants(b, None, "R04f")
